@@ -259,6 +259,16 @@ func patchHarnesses(thorough bool) []harness {
 	}
 	hs = append(hs, patchProg{Name: "npm-relax-introduced-chain-forks-at-depth-3", Case: u.Case{Eco: u.NPM, Pkgs: deep,
 		Manifest: []u.Req{{Name: "top", Req: "^1.0.0"}}, Vulns: deepVulns}})
+	// a diamond: the attempts for V-A and for V-B produce the SAME patch (lib -> ^2, which fixes both
+	// and introduces V-C), but their follow-ups differ: [V-A,V-C] leads to ^3 (V-B is back there),
+	// [V-B,V-C] to ^4. Both follow-ups must be started whichever of the equal results arrives first.
+	dia := []u.Pkg{{Name: "lib", Vers: vers(
+		v("1.0.0", u.Dep{Name: "bada", Req: "1.0.0"}, u.Dep{Name: "badb", Req: "1.0.0"}), v("2.0.0", u.Dep{Name: "badc", Req: "1.0.0"}),
+		v("3.0.0", u.Dep{Name: "badb", Req: "1.0.0"}), v("4.0.0"))},
+		{Name: "bada", Vers: vers(v("1.0.0"))}, {Name: "badb", Vers: vers(v("1.0.0"))}, {Name: "badc", Vers: vers(v("1.0.0"))}}
+	hs = append(hs, patchProg{Name: "npm-relax-equal-patches-with-different-follow-ups", Case: u.Case{Eco: u.NPM, Pkgs: dia,
+		Manifest: []u.Req{{Name: "lib", Req: "^1.0.0"}},
+		Vulns:    []u.Vuln{{ID: "V-A", Pkg: "bada", Introduced: "0"}, {ID: "V-B", Pkg: "badb", Introduced: "0"}, {ID: "V-C", Pkg: "badc", Introduced: "0"}}}})
 	if thorough {
 		hs = append(hs, patchProg{Name: "maven-override-3-vulns", Case: u.Case{Eco: u.Maven, Pkgs: mvnPkgs,
 			Manifest: []u.Req{{Name: "d1", Req: "1.0.0"}, {Name: "d2", Req: "1.0.0"}, {Name: "d3", Req: "1.0.0"}},
